@@ -491,6 +491,8 @@ package dns
 // hex text is decoded and handed, from offset 0, to the typed record's own unpacker with RDLENGTH = octets decoded
 //@ func (*RFC3597).ToRFC3597 [C01 C05]
 //@   opt no-safety
+// the receiver becomes the generic form of r and nothing else: for a record without RDATA no RDATA of an earlier use stays
+//@   exit nordata: ret0 == nil && called("noRdata") && callres("noRdata") ==> len(rr.Rdata) == 0 [C01]
 //@   requires rr != nil && r != nil
 //@   callsite "packRR" plain: arg0 == r && same(arg1, buf) && arg2 == 0 && !arg4
 //@   callsite "unpack" rdata: ref(arg1) == ref(buf) && len(arg1) == callres("packRR", 1) && arg2 == callres("packRR", 0)
